@@ -22,7 +22,7 @@ def main():
     if tier not in ("quick", "thorough"):
         tier = "quick"
     import shutil
-    shutil.rmtree(os.path.join(V.BUILD, "replays", pid), ignore_errors=True)
+    shutil.rmtree(os.path.join(V.BUILD, V.REPLAYS, pid), ignore_errors=True)
     ev = V.Evidence(pid, tier, seed, mod.LEVEL)
     ev.assumptions = list(getattr(mod, "ASSUMPTIONS", []))
     try:
